@@ -42,7 +42,15 @@ def _cases(draw, tier):
         m.apply(op)
     reads = draw(S.read_ranges(m, draw(st.integers(6, 12))))
     path = draw(st.sampled_from(["py", "py", "c"]))
-    return {"cfg": cfg, "ops": ops, "reads": reads, "path": path}
+    case = {"cfg": cfg, "ops": ops, "reads": reads, "path": path}
+    if path == "py":
+        # how the arguments are passed (array_like: strided views, lists, int64) and how the session ends
+        for op in ops:
+            f = draw(st.sampled_from(["plain", "plain", "plain", "strided", "list", "int64"]))
+            if f != "plain":
+                op["argform"] = f
+        case["end"] = draw(st.sampled_from(["close", "close", "with", "del"]))
+    return case
 
 
 def strategy(tier):
@@ -90,7 +98,7 @@ def execute(case, top):
     ch = os.path.join(top, "ch0")
     fails = []
     if case["path"] == "py":
-        res = rfharness.run_python(cfg, ops, ch)
+        res = rfharness.run_python(cfg, ops, ch, end=case.get("end", "close"))
         for i, r in enumerate(res[:-1]):
             if r["status"] != "ok":
                 fails.append(("valid-write-rejected:py", "op %d %r -> %s" % (i, ops[i], r["ret"])))
@@ -179,6 +187,10 @@ def classify(case, m, res):
         res.cls("multifile")
     if any(op["op"] == "b" for op in case["ops"]):
         res.cls("blocks")
+    if any(op.get("argform") == "strided" for op in case["ops"]):
+        res.cls("strided-arguments")
+    if case.get("end") == "del":
+        res.cls("ended-without-close")
     if len({rfmodel.subdir_s(cfg, r[0]) for r in m.runs} | {rfmodel.subdir_s(cfg, r[0] + r[1] - 1) for r in m.runs}) > 1:
         res.cls("multisubdir")
 
